@@ -7,6 +7,10 @@ FAMILY = {
     "C04": dict(fam="code", prefixes=("C04.",), need=[("CodeExchange", "tokens"), ("CodeExchange", "json"), ("Callback", "code")]),
     "C07": dict(fam="refresh", prefixes=("C07.",), need=[("Refresh", "tokens"), ("Refresh", "json")]),
     "C08": dict(fam="tokenuse", prefixes=("C08.",), need=[("UserInfo", "claims"), ("Introspect", "active"), ("Introspect", "inactive"), ("Revoke", "ok200")]),
+    "C05": dict(fam="clientauth", prefixes=("C05.",), need=[("ClientCreds", "tokens"), ("Introspect", "active"), ("TokenExchange", "tokens"),
+                                                            ("CodeExchange", "tokens"), ("Refresh", "tokens"), ("DeviceAuthorize", "device"), ("Poll", "tokens")]),
+    "C15": dict(fam="exchange", prefixes=("C15.",), need=[("TokenExchange", "tokens"), ("TokenExchange", "json")]),
+    "C18": dict(fam="logout", prefixes=("C18.",), need=[("EndSession", "redirect"), ("EndSession", "json")]),
     "C16": dict(fam="device", prefixes=("C16.",), need=[("Poll", "tokens"), ("Poll", "json"), ("DeviceAuthorize", "device")]),
 }
 
@@ -45,13 +49,17 @@ def op_pipeline(pid, tier, seed, fam, wd, focus=None):
     dcfg = f"OPDesign_{fam}{sz['design_suffix']}.cfg"
     if not os.path.exists(os.path.join(wd, dcfg)):
         dcfg = f"OPDesign_{fam}.cfg"
-    d = tlc(wd, "OPDesign.tla", cfg=dcfg, timeout=3600 if tier == "thorough" else 600)
+    if os.environ.get("VERIF_DEV_SKIP_DESIGN"):   # development aid only: never used by registered commands
+        d = dict(distinct=0, generated=0, depth=0, wall=0.0)
+    else:
+        d = tlc(wd, "OPDesign.tla", cfg=dcfg, timeout=3600 if tier == "thorough" else 600)
     res["design"] = dict(cfg=dcfg, states=d["distinct"], transitions=d["generated"], depth=d["depth"], wall=round(d["wall"], 1))
     log(f"[{pid}] design {dcfg}: {d['distinct']} distinct / {d['generated']} generated states, depth {d['depth']}, {d['wall']:.0f}s, invariant NoViolation holds")
     # 2. behaviours out of TLC
     mcfg = f"OPMBT_{fam}.cfg"
     depth = int(re.search(r"Depth = (\d+)", open(os.path.join(wd, mcfg)).read()).group(1))
-    m = tlc(wd, "OPMBT.tla", cfg=mcfg, workers=1, simulate=f"num={sz['walks']}", depth=depth, seed=seed, timeout=900)
+    walks = WALKS.get(fam, 200) * (1 if tier == "quick" else 12)
+    m = tlc(wd, "OPMBT.tla", cfg=mcfg, workers=1, simulate=f"num={walks}", depth=depth, seed=seed, timeout=3600)
     behs = parse_behaviours(m["out"])
     if not behs:
         raise Inconclusive("TLC emitted no behaviours:\n" + m["out"][-2000:])
@@ -104,6 +112,19 @@ def run_monitor(wd, replay=False):
     return viols, head["lines"]
 
 
+def signature(v):
+    sig = f"{v['rule']}:{v['router']}:{v['op']}"
+    a = v.get("args", {})
+    if v["rule"] == "C15.subject.type":
+        sig += f":{a['subj']['kind']}-declared-{a['subj']['declared']}"
+    if v["rule"] == "C15.actor.type":
+        sig += f":{a['actor']['kind']}-declared-{a['actor']['declared']}"
+    return sig
+
+
+WALKS = dict(code=300, refresh=300, tokenuse=150, device=300, exchange=150, clientauth=60, logout=200, authorize=200, issue=150)
+
+
 def op_check(pid, tier, seed, replay=None):
     spec = FAMILY[pid]
     t0 = time.time()
@@ -123,7 +144,7 @@ def op_check(pid, tier, seed, replay=None):
         if missing:
             raise Inconclusive(f"vacuous run: no event of kind {missing} in {len(trace)} trace lines")
         histories = sum(1 for e in trace if e["op"] == "Reset")
-        new, known = report(pid, mine, lambda v: f"{v['rule']}:{v['router']}:{v['op']}",
+        new, known = report(pid, mine, signature,
                             lambda v: dict(rule=v["rule"], line=v["line"], router=v["router"], op=v["op"], behaviour=v["beh"], step=v["step"],
                                            args=v["args"], observed=v["out_class"]),
                             wd, ["trace.ndjson", "raw.ndjson", "viol.ndjson", "behaviours.ndjson", "world.json"], seed, tier)
